@@ -174,6 +174,10 @@ def make_builtins(I):
 
     @reg("any")
     def _any(I, args, kw, node):
+        from . import quant
+
+        if quant.is_symbolic_source(I, args[0]):
+            return quant.quantified(I, args[0], True, node)
         for x in iterate(I, args[0], node):
             if I.truthy(x, node):
                 return True
@@ -181,6 +185,10 @@ def make_builtins(I):
 
     @reg("all")
     def _all(I, args, kw, node):
+        from . import quant
+
+        if quant.is_symbolic_source(I, args[0]):
+            return quant.quantified(I, args[0], False, node)
         for x in iterate(I, args[0], node):
             if not I.truthy(x, node):
                 return False
@@ -2124,6 +2132,10 @@ def stub_module(I, name):
         chain = ModuleV("itertools.chain")
 
         def _from_iterable(I, a, k, n):
+            from . import quant
+
+            if quant.is_symbolic_source(I, a[0]):
+                return quant.ChainV(a[0])
             out = []
             for sub in iterate(I, a[0], n):
                 out.extend(iterate(I, sub, n))
